@@ -99,7 +99,7 @@ CHECKS = {
              "the DE abstraction and for Nelder-Mead with the rule 'constrain the best vertex before it is reported', and "
              "REFUTES them for the rule found on the pinned tree ('constrain it at the next iteration').  Implementation: "
              "700 (quick) / 8000 (thorough) seeded runs of DE, DE2, Nelder-Mead, Powell stepped with a snapshot after every "
-             "iteration plus 150/1200 runs of fmin, fmin_powell, diffev, diffev2, lattice, buckshot, on a catalogue of costs "
+             "iteration plus 150/1200 runs of fmin, fmin_powell, diffev, diffev2, lattice, buckshot, sparsity, on a catalogue of costs "
              "(incl. array-valued + reducer, plateaus, inf walls), constraints (pure/in-place), penalties, boxes and "
              "tight/clip modes, installed at the start or mid-run; the recorder logs every call of the user's cost with "
              "flags computed from pristine copies; TLC accepts a trace only if every Call and Boundary event satisfies the "
